@@ -425,6 +425,17 @@ class FuncGen:
             L += ["try:", f"    A{t}()", "except TypeError:", f"    T('{t}te', 'TE')"]
         if R.bool():
             L += ["try:", f"    o1{t}.nosuch", "except AttributeError:", f"    T('{t}ae', 'AE')"]
+        if R.bool():
+            # a subclass with its own __init__ that calls the base class's explicitly (by name or through two-argument
+            # super), a mixin without __init__ before the base that has one, and a third level
+            how = R.choice([f"A{t}.__init__(self, v, w=7)", f"super(C{t}, self).__init__(v, 8)"])
+            L += [f"class M{t}:", "    tag = 'mix'", "    def who(self):", "        return (self.tag, self.v)",
+                  f"class C{t}(M{t}, A{t}):", "    def __init__(self, v, z):", f"        {how}", "        self.z = z",
+                  f"class D{t}(M{t}, A{t}):", "    pass",
+                  f"class E{t}(C{t}):", "    def __init__(self):", f"        C{t}.__init__(self, 'e', 'z')", "        self.e = 1",
+                  f"c{t} = C{t}('cv', T('{self.tag()}', 'cz'))", f"d{t} = D{t}('dv')", f"e{t} = E{t}()",
+                  f"T('{t}init', (c{t}.v, c{t}.w, c{t}.z, c{t}.who(), d{t}.v, d{t}.w, d{t}.who(), e{t}.v, e{t}.z, e{t}.e, A{t}.cnt))"]
+            L += ["try:", f"    D{t}()", "except TypeError:", f"    T('{t}te2', 'TE')"]
         return L
 
     def p_methods(self):
@@ -600,6 +611,8 @@ REGRESS = [
     ("unbound-local", "x = 1\ndef f():\n    try:\n        r = x\n    except NameError:\n        r = 'NE'\n    x = 2\n    return r\nr = f()"),
     ("class-scope", "x = 'g'\nclass K:\n    x = 'c'\n    def m(self):\n        return x\nr = (K.x, K().m())"),
     ("class-body-raises", "def f():\n    a = 1\n    try:\n        class K:\n            x = 1\n            raise ValueError\n    except ValueError:\n        pass\n    y = 2\n    try:\n        K\n        k = 'bound'\n    except NameError:\n        k = 'NE'\n    return (a, y, k)\nr = f()\ntry:\n    class M:\n        raise KeyError\nexcept KeyError:\n    pass\nz = 3"),
+    ("explicit-base-init", "class A:\n    def __init__(self, v):\n        self.v = v\nclass B(A):\n    def __init__(self, v, w):\n        A.__init__(self, v)\n        self.w = w\nclass C(A):\n    def __init__(self, v):\n        super(C, self).__init__(v + 1)\nr = (B(1, 2).v, B(1, 2).w, C(1).v)"),
+    ("mixin-before-base-init", "class A:\n    def __init__(self, v):\n        self.v = v\nclass M:\n    tag = 'm'\nclass B(M, A):\n    pass\nr = (B(4).v, B(5).tag)"),
     ("default-once", "def f(a=[]):\n    a.append(1)\n    return a\nf()\nr = f()"),
 ]
 
